@@ -28,6 +28,7 @@ func init() {
 		Assumptions: []string{"text/template semantics; the template model mirrors cmd/protoc-gen-router/main.go newServiceModel and cmd/protoc-gen-wrapper/main.go", "grpc ClientStream/ServerStream contracts"},
 		Run:         runC12,
 		Controls: []Control{
+			{Name: "router-name-cut-by-prefix-length", File: "cmd/protoc-gen-router/main.go", Old: "\treturn s[len(s)-len(ls):]", New: "\treturn s[len(lp):]", Expect: "R12.11"},
 			{Name: "wrapper-import-path-drifts", File: "cmd/protoc-gen-wrapper/main.go", Old: "github.com/smart-core-os/sc-golang/pkg/trait/%s", New: "github.com/smart-core-os/sc-golang/pkg/traits/%s", Expect: "R12.9"},
 			{Name: "wrapper-strips-only-the-first-underscore", File: "cmd/protoc-gen-wrapper/main.go", Old: "\tpkg = strings.ReplaceAll(pkg, \"_\", \"\")\n", New: "\tpkg = strings.Replace(pkg, \"_\", \"\", 1)\n", Expect: "R12.8"},
 			{Name: "only-client-streams-wrapped", File: "pkg/middleware/name/defaults.go", Old: "\t\treturn handler(srv, &absentNameReplaceServerStream{", New: "\t\tif !info.IsClientStream {\n\t\t\treturn handler(srv, ss)\n\t\t}\n\t\treturn handler(srv, &absentNameReplaceServerStream{", Expect: "R12.5"},
@@ -288,6 +289,10 @@ func runC12(c *an.Ctx) {
 	r128(c, "R12.8")
 	r129(c, "R12.9")
 	c.Min("R12.9", 2)
+	c.Count("shared_metadata_obligations", shareAs(c, "R13.11", "R12.10", r1311, nil)) // header and trailer pass through unaltered: what the server side keeps accumulates (shared with R13.11)
+	c.Min("R12.10", 3)
+	r1211(c, "R12.11")
+	c.Min("R12.11", 2)
 	c.Min("R12.8", 1)
 	r121and2(c)
 	r123(c)
@@ -1580,5 +1585,64 @@ func r129(c *an.Ctx, rule string) {
 		if n == 0 {
 			c.Unk(rule, gen+"|generated files are placed in the package they declare", fn.Pos(), "no call of NewGeneratedFile found")
 		}
+	}
+}
+
+// r1211: the service name the generators derive file and type names from is the Go name minus the trait prefix IF
+// it starts with it (ignoring case) - and the whole name otherwise. trimPrefixIgnoreCase cuts s by the length of
+// what strings.TrimPrefix removed from the lower-cased name: s[len(s)-len(trimmed):]. Cutting by the prefix's
+// length instead chops the first letters off every service that does not start with its package's trait name
+// (electricpb's MemorySettingsApi becomes ttingsApi: another file, another type; the checked-in router goes stale).
+func r1211(c *an.Ctx, rule string) {
+	for _, gen := range []string{"cmd/protoc-gen-router", "cmd/protoc-gen-wrapper"} {
+		fn := c.Prog.Func(gen, "", "trimPrefixIgnoreCase")
+		if fn == nil {
+			continue // a generator that names its files another way has its own rules (R12.1 compares the output)
+		}
+		cons := gen + ".trimPrefixIgnoreCase|the name is cut by what was actually trimmed"
+		c.SawFunc(an.FuncName(fn))
+		ok, n := true, 0
+		for _, r := range an.Returns(fn) {
+			if len(r.Results) != 1 {
+				continue
+			}
+			for _, v := range an.ValuesAt(r.Results[0]) {
+				if p, isP := v.(*ssa.Parameter); isP && p == fn.Params[0] {
+					continue // the whole name
+				}
+				sl, isSl := v.(*ssa.Slice)
+				if !isSl {
+					ok = false
+					continue
+				}
+				n++
+				good := false
+				// s[len(s)-len(trimmed):]
+				if sub, isSub := sl.Low.(*ssa.BinOp); isSub && sub.Op == token.SUB {
+					if ln, isLen := sub.Y.(*ssa.Call); isLen && an.CalleeName(ln) == "builtin len" {
+						for _, s := range an.Sources(ln.Call.Args[0]) {
+							if call, isCall := s.(*ssa.Call); isCall && (an.CalleeName(call) == "strings.TrimPrefix" || an.CalleeName(call) == "strings.CutPrefix") {
+								good = true
+							}
+						}
+					}
+				}
+				// s[len(prefix):] behind a successful HasPrefix / CutPrefix test
+				if !good {
+					for _, e := range an.GuardingEdges(r) {
+						for _, s := range an.Sources(e.If.Cond) {
+							if call, isCall := s.(*ssa.Call); isCall && e.Branch && (an.CalleeName(call) == "strings.HasPrefix" || an.CalleeName(call) == "strings.CutPrefix" || an.CalleeName(call) == "strings.EqualFold") {
+								good = true
+							}
+						}
+					}
+				}
+				if !good {
+					ok = false
+				}
+			}
+		}
+		c.Check(ok && n > 0, rule, cons, fn.Pos(), "s[len(s)-len(TrimPrefix(lower(s), lower(prefix))):]",
+			"the service name is not cut by the length of what was trimmed (or behind a test that it has the prefix): a service that does not start with its package's trait name loses its first letters, so the generator writes another file and type than the checked-in one")
 	}
 }
